@@ -44,7 +44,13 @@ impl Axecutor {
             )));
         }
 
-        let (quotient, remainder) = (ax / src_val, ax % src_val);
+        // Divide in a wider type so that the quotient range can be checked (and MIN / -1 cannot overflow)
+        let (quotient, remainder) = ((ax as i32) / (src_val as i32), (ax as i32) % (src_val as i32));
+        if quotient < i8::MIN as i32 || quotient > i8::MAX as i32 {
+            return Err(AxError::from(
+                "Divide error in Idiv_rm8: quotient does not fit into 8 bits",
+            ));
+        }
 
         self.reg_write_8(AL, quotient as u8 as u64)?;
         self.reg_write_8(AH, remainder as u8 as u64)?;
@@ -75,7 +81,16 @@ impl Axecutor {
         let dst_val =
             (self.reg_read_16(AX)? as u32 | ((self.reg_read_16(DX)? as u32) << 16)) as i32;
 
-        let (quotient, remainder) = (dst_val / src_val, dst_val % src_val);
+        // Divide in a wider type so that the quotient range can be checked (and MIN / -1 cannot overflow)
+        let (quotient, remainder) = (
+            (dst_val as i64) / (src_val as i64),
+            (dst_val as i64) % (src_val as i64),
+        );
+        if quotient < i16::MIN as i64 || quotient > i16::MAX as i64 {
+            return Err(AxError::from(
+                "Divide error in Idiv_rm16: quotient does not fit into 16 bits",
+            ));
+        }
 
         self.reg_write_16(AX, quotient as u16 as u64)?;
         self.reg_write_16(DX, remainder as u16 as u64)?;
@@ -105,7 +120,16 @@ impl Axecutor {
 
         let dst_val = (self.reg_read_32(EAX)? | (self.reg_read_32(EDX)? << 32)) as i64;
 
-        let (quotient, remainder) = (dst_val / src_val, dst_val % src_val);
+        // Divide in a wider type so that the quotient range can be checked (and MIN / -1 cannot overflow)
+        let (quotient, remainder) = (
+            (dst_val as i128) / (src_val as i128),
+            (dst_val as i128) % (src_val as i128),
+        );
+        if quotient < i32::MIN as i128 || quotient > i32::MAX as i128 {
+            return Err(AxError::from(
+                "Divide error in Idiv_rm32: quotient does not fit into 32 bits",
+            ));
+        }
 
         self.reg_write_32(EAX, quotient as u32 as u64)?;
         self.reg_write_32(EDX, remainder as u32 as u64)?;
@@ -137,6 +161,11 @@ impl Axecutor {
             (self.reg_read_64(RAX)? as u128 | ((self.reg_read_64(RDX)? as u128) << 64)) as i128;
 
         let (quotient, remainder) = (dst_val / src_val, dst_val % src_val);
+        if quotient < i64::MIN as i128 || quotient > i64::MAX as i128 {
+            return Err(AxError::from(
+                "Divide error in Idiv_rm64: quotient does not fit into 64 bits",
+            ));
+        }
 
         self.reg_write_64(RAX, quotient as u64)?;
         self.reg_write_64(RDX, remainder as u64)?;
